@@ -309,19 +309,13 @@ let dump_loaded (e : env) (root : etree) (st : pstate) : String.t * int =
     (List.rev !order);
   (Buffer.contents b, !ne)
 
-(* load_buffer_internal: the same path used by two elements with different element names -> OverlappingDataError *)
-let overlap (root : etree) (st : pstate) : bool =
-  let rec at (ENode (name, _, _, content, _) as _e) (pos : nat list) : n option =
-    match pos with
-    | [] -> Some name
-    | i :: rest -> (match List.nth_opt content (int_of_nat i) with Some (Inl sub) -> at sub rest | _ -> None) in
-  let first : (String.t, n option) Hashtbl.t = Hashtbl.create 16 in
-  List.exists (fun (path, pos) ->
+(* load_buffer_internal (since fix 9d6ce2a): every Autosar path must be unique in the new data -> OverlappingDataError
+   (the model is fresh, so there is no existing identifiable to compare with) *)
+let overlap (_root : etree) (st : pstate) : bool =
+  let seen : (String.t, unit) Hashtbl.t = Hashtbl.create 16 in
+  List.exists (fun (path, _pos) ->
     let p = string_of_bytes path in
-    let nm = at root pos in
-    match Hashtbl.find_opt first p with
-    | None -> Hashtbl.replace first p nm; false
-    | Some nm0 -> nm0 <> nm) (List.rev st.p_idents)
+    if Hashtbl.mem seen p then true else (Hashtbl.replace seen p (); false)) (List.rev st.p_idents)
 
 let warnings_str (st : pstate) : String.t =
   let ws = List.rev st.p_warnings in
